@@ -143,7 +143,22 @@ def run(res, tier, build_ok):
             s0.testunitready()
             s0.inquiry()
         except Exception:
-            pass
+            s0 = None
+        if s0 is not None and inq[1:8] == bytes(7)[:3] + bytes([91]) + bytes(3):
+            # one device per type: every facade method once (whatever it does — refused, unsupported on this set, sent)
+            import inspect
+            for mname, fn in inspect.getmembers(SCSI, predicate=inspect.isfunction):
+                if mname.startswith("_") or mname in ("execute",):
+                    continue
+                kw = {}
+                for pn, par in list(inspect.signature(fn).parameters.items())[1:]:
+                    if par.default is inspect.Parameter.empty and par.kind == par.POSITIONAL_OR_KEYWORD:
+                        kw[pn] = bytearray(512) if pn in ("data",) else 0
+                try:
+                    getattr(s0, mname)(**kw)
+                except Exception:
+                    pass
+                res.count("facade methods called before re-checking the tables")
         res.case(("attach", inq[:8]), None)
         res.count("attach histories before re-checking the tables")
     after = snapshot()
